@@ -27,13 +27,16 @@ var whatwgNonDataBody = map[string]bool{
 //   - no element whose body the browser parses as markup is in the table (else a
 //     <style>/<script> written inside it goes unnoticed and an action inside gets the outer
 //     element's sanitizer).
-func checkElementBodyKinds(p *Program, r *Report, rule string, pl *Policy) {
+//
+// findOpaqueBodyTable locates the transition function of the tag state and the name table whose
+// lookup guards the switch to the opaque-body state.
+func findOpaqueBodyTable(p *Program, r *Report, rule string) (*ssa.Function, *ssa.Global) {
 	tpk := p.Pkg("template")
 	stObj := tpk.Types.Scope().Lookup("state")
 	lit, err := p.VarLit("template", "transitionFunc")
 	if stObj == nil || err != nil {
 		r.Undec(rule, "template.transitionFunc", "", "anchor not found")
-		return
+		return nil, nil
 	}
 	states := ConstNames(tpk, stObj.Type())
 	var tagFn *ssa.Function
@@ -53,7 +56,7 @@ func checkElementBodyKinds(p *Program, r *Report, rule string, pl *Policy) {
 	}
 	if tagFn == nil || special < 0 {
 		r.Undec(rule, "template.transitionFunc[stateTag]", "", "anchor not found")
-		return
+		return nil, nil
 	}
 	// the table whose lookup guards a store of the opaque-body state
 	var tables []*ssa.Global
@@ -94,8 +97,17 @@ func checkElementBodyKinds(p *Program, r *Report, rule string, pl *Policy) {
 	c := strings.TrimPrefix(fnName(tagFn), pkgTemplate+".")
 	if len(tables) != 1 {
 		r.Undec(rule, "template."+c+"#opaque-body-table", p.Pos(tagFn.Pos()), fmt.Sprintf("expected one name table guarding the switch to the opaque-body state, found %d", len(tables)))
+		return nil, nil
+	}
+	return tagFn, tables[0]
+}
+
+func checkElementBodyKinds(p *Program, r *Report, rule string, pl *Policy) {
+	tagFn, table := findOpaqueBodyTable(p, r, rule)
+	if tagFn == nil {
 		return
 	}
+	tables := []*ssa.Global{table}
 	tl, err := p.VarLit("template", tables[0].Name())
 	if err != nil {
 		r.Undec(rule, "template."+tables[0].Name(), "", err.Error())
@@ -135,4 +147,133 @@ func checkElementBodyKinds(p *Program, r *Report, rule string, pl *Policy) {
 	for _, e := range []string{"script", "style"} {
 		r.Check(set[e], rule, tn+"["+e+"]", pos, "<"+e+"> bodies are opaque to the tag scanner", "<"+e+"> is not scanned as an opaque body: `<"+e+">\"<b>\"{{.}}</"+e+">` HTML-escapes a plain string into the "+e+" body")
 	}
+}
+
+// checkConditionalNamesBodyKind: after a join of branches that spell different element
+// names, only element.name is consulted when the tag ends; the other possible names
+// (element.names) must be compared with it against the opaque-body table, or a
+// {{if}}<script{{else}}<b{{end}}> lets the escaper scan a script body as markup.
+func checkConditionalNamesBodyKind(p *Program, r *Report, rule string) {
+	tagFn, table := findOpaqueBodyTable(p, r, rule)
+	if tagFn == nil {
+		return
+	}
+	c := strings.TrimPrefix(fnName(tagFn), pkgTemplate+".") + "#conditional-names-body-kind"
+	// lookups in the table, classified by where the key comes from
+	fromNames := func(v ssa.Value) bool {
+		found := false
+		seen := map[ssa.Value]bool{}
+		var walk func(ssa.Value)
+		walk = func(y ssa.Value) {
+			if y == nil || seen[y] || found {
+				return
+			}
+			seen[y] = true
+			switch x := y.(type) {
+			case *ssa.FieldAddr:
+				if fieldName(x.X.Type(), x.Field) == "names" && isNamed(x.X.Type(), pkgTemplate, "element") {
+					found = true
+					return
+				}
+			case *ssa.Field:
+				if fieldName(x.X.Type(), x.Field) == "names" && isNamed(x.X.Type(), pkgTemplate, "element") {
+					found = true
+					return
+				}
+			}
+			if in, ok := y.(ssa.Instruction); ok {
+				for _, op := range in.Operands(nil) {
+					walk(*op)
+				}
+			}
+		}
+		walk(v)
+		return found
+	}
+	var nameLk, namesLk []*ssa.Lookup
+	for _, b := range tagFn.Blocks {
+		for _, in := range b.Instrs {
+			lk, ok := in.(*ssa.Lookup)
+			if !ok {
+				continue
+			}
+			u, ok := lk.X.(*ssa.UnOp)
+			if !ok || u.X != ssa.Value(table) {
+				continue
+			}
+			if fromNames(lk.Index) {
+				namesLk = append(namesLk, lk)
+			} else {
+				nameLk = append(nameLk, lk)
+			}
+		}
+	}
+	pos := p.Pos(tagFn.Pos())
+	if len(namesLk) == 0 {
+		r.Viol(rule, c, pos, "when a tag ends, only element.name is looked up in "+table.Name()+"; the other names the element can have after a join of branches (element.names) are never compared with it: the escaper scans the body as markup (or as an opaque body) although one branch opened an element of the other kind",
+			`{{if .C}}<script{{else}}<b{{end}}>var a = "<i>"; {{.X}}</script> with a plain string X`)
+		return
+	}
+	// a disagreement must lead to an error context: some comparison of a names lookup with a name lookup
+	cmp := false
+	for _, b := range tagFn.Blocks {
+		for _, in := range b.Instrs {
+			bo, ok := in.(*ssa.BinOp)
+			if !ok {
+				continue
+			}
+			isN := func(v ssa.Value) bool {
+				for _, l := range namesLk {
+					if v == ssa.Value(l) {
+						return true
+					}
+				}
+				return false
+			}
+			isO := func(v ssa.Value) bool {
+				for _, l := range nameLk {
+					if v == ssa.Value(l) {
+						return true
+					}
+				}
+				return false
+			}
+			if (isN(bo.X) && isO(bo.Y)) || (isN(bo.Y) && isO(bo.X)) {
+				cmp = true
+			}
+		}
+	}
+	r.Check(cmp, rule, c, pos, "every name the element can have after a join is compared with element.name against "+table.Name()+" before the tag's body kind is decided", "element.names is looked up in "+table.Name()+" but never compared with the lookup of element.name")
+}
+
+// checkAttrNameContinuation: an attribute name can run over several text nodes
+// (src{{if .C}}doc{{end}}=). The transition function of the attribute-name state eats
+// the continuation but must also record it, because the sanitizer for the value is
+// chosen from attr.name.
+func checkAttrNameContinuation(p *Program, r *Report, rule string) {
+	tpk := p.Pkg("template")
+	stObj := tpk.Types.Scope().Lookup("state")
+	lit, err := p.VarLit("template", "transitionFunc")
+	if stObj == nil || err != nil {
+		r.Undec(rule, "template.transitionFunc", "", "anchor not found")
+		return
+	}
+	states := ConstNames(tpk, stObj.Type())
+	var fn *ssa.Function
+	for i, k := range lit.Keys {
+		kv, _ := k.Int()
+		if states[kv] == "stateAttrName" {
+			if f, ok := lit.Vals[i].Obj.(*types.Func); ok {
+				fn = p.SSA.FuncValue(f)
+			}
+		}
+	}
+	if fn == nil {
+		r.Undec(rule, "template.transitionFunc[stateAttrName]", "", "anchor not found")
+		return
+	}
+	c := strings.TrimPrefix(fnName(fn), pkgTemplate+".") + "#name-continuation"
+	n := len(storesToField(fn, pkgTemplate, "attr", "name"))
+	r.Check(n > 0, rule, c, p.Pos(fn.Pos()), "the continuation of an attribute name is appended to attr.name",
+		"the attribute-name state consumes the rest of a name that started in an earlier text node without recording it in attr.name: the value is sanitized for the prefix only (src instead of srcdoc)")
 }
